@@ -3,16 +3,21 @@
 package main
 
 import (
+	"context"
 	"crypto/sha256"
 	"fmt"
 	"os"
 	"path/filepath"
 	"strings"
 
+	"grog/internal/caching"
+	"grog/internal/caching/backends"
 	"grog/internal/config"
+	"grog/internal/console"
 	"grog/internal/hashing"
 	"grog/internal/label"
 	"grog/internal/model"
+	"grog/internal/output"
 )
 
 var hashSeq int
@@ -63,6 +68,120 @@ func init() {
 			return nil, err
 		}
 		return map[string]any{"hex": h.SumString()}, nil
+	})
+	// hash.file: hashing.HashFile of a file written from the request: either literal content "s", or "blocks" (ids) of "bs" bytes each
+	// (block content is a function of the id, different ids give blocks that differ in every 8-byte word) plus "tail" extra bytes.
+	// For literal content HashBytes and HashString are returned as well.
+	register("hash.file", func(req map[string]any) (any, error) {
+		hashSeq++
+		dir := filepath.Join(scratchBase(), fmt.Sprintf("hf-%d-%d", os.Getpid(), hashSeq))
+		if err := os.MkdirAll(dir, 0o755); err != nil {
+			return nil, err
+		}
+		defer os.RemoveAll(dir)
+		config.Global.HashAlgorithm = b2s(req["algo"])
+		path := filepath.Join(dir, "f.bin")
+		res := map[string]any{}
+		if _, ok := req["blocks"]; ok {
+			bs := int(req["bs"].(float64))
+			f, err := os.Create(path)
+			if err != nil {
+				return nil, err
+			}
+			buf := make([]byte, bs)
+			ids, _ := req["blocks"].([]any)
+			for _, idv := range ids {
+				id := uint64(idv.(float64))
+				for j := range buf {
+					w := uint64(j / 8)
+					buf[j] = byte(((id+1)*0x9e3779b97f4a7c15 + w*0x100000001b3) >> (8 * uint(j%8)))
+				}
+				if _, err := f.Write(buf); err != nil {
+					f.Close()
+					return nil, err
+				}
+			}
+			if t, ok := req["tail"].(float64); ok && t > 0 {
+				tail := make([]byte, int(t))
+				for j := range tail {
+					tail[j] = byte(j*13 + 5)
+				}
+				f.Write(tail)
+			}
+			f.Close()
+		} else {
+			content := b2s(req["s"])
+			if err := os.WriteFile(path, []byte(content), 0o644); err != nil {
+				return nil, err
+			}
+			res["bytes"] = hashing.HashBytes([]byte(content))
+			res["string"] = hashing.HashString(content)
+		}
+		h, err := hashing.HashFile(path)
+		if err != nil {
+			return map[string]any{"err": true}, nil
+		}
+		res["file"] = h
+		return res, nil
+	})
+	// hash.nocache: the real Registry.GetNoCacheOutputHash for a target whose outputs are materialised in a fresh workspace at
+	// <scratch>/<rootname>: "outputs" = [[file name, content]], "dirs" = [[dir name, [[relative path, content], ...]]]
+	register("hash.nocache", func(req map[string]any) (any, error) {
+		hashSeq++
+		base := filepath.Join(scratchBase(), fmt.Sprintf("hn-%d-%d", os.Getpid(), hashSeq))
+		defer os.RemoveAll(base)
+		root := filepath.Join(base, b2s(req["rootname"]), "ws")
+		pkg := b2s(req["pkg"])
+		pkgDir := filepath.Join(root, pkg)
+		if err := os.MkdirAll(pkgDir, 0o755); err != nil {
+			return nil, err
+		}
+		config.Global = config.WorkspaceConfig{Root: filepath.Join(base, "groot"), WorkspaceRoot: root, LogLevel: "error", LogOutputPath: "stderr",
+			HashAlgorithm: b2s(req["algo"]), EnableCache: true}
+		var outs []model.Output
+		for _, f := range hashPairs(req["outputs"]) {
+			full := filepath.Join(pkgDir, *f[0])
+			if err := os.MkdirAll(filepath.Dir(full), 0o755); err != nil {
+				return nil, err
+			}
+			if err := os.WriteFile(full, []byte(*f[1]), 0o644); err != nil {
+				return nil, err
+			}
+			outs = append(outs, model.NewOutput("file", *f[0]))
+		}
+		dirs, _ := req["dirs"].([]any)
+		for _, dv := range dirs {
+			d, _ := dv.([]any)
+			if len(d) != 2 {
+				continue
+			}
+			name := b2s(d[0])
+			if err := os.MkdirAll(filepath.Join(pkgDir, name), 0o755); err != nil {
+				return nil, err
+			}
+			for _, f := range hashPairs(d[1]) {
+				full := filepath.Join(pkgDir, name, *f[0])
+				if err := os.MkdirAll(filepath.Dir(full), 0o755); err != nil {
+					return nil, err
+				}
+				if err := os.WriteFile(full, []byte(*f[1]), 0o644); err != nil {
+					return nil, err
+				}
+			}
+			outs = append(outs, model.NewOutput("dir", name))
+		}
+		ctx := console.WithLogger(context.Background(), console.InitLogger())
+		fs, err := backends.NewFileSystemCache(ctx)
+		if err != nil {
+			return nil, err
+		}
+		reg := output.NewRegistry(ctx, caching.NewCas(fs))
+		t := &model.Target{Label: label.TargetLabel{Package: pkg, Name: b2s(req["name"])}, ChangeHash: "k", Outputs: outs}
+		res, err := reg.GetNoCacheOutputHash(ctx, t)
+		if err != nil {
+			return map[string]any{"err": true}, nil
+		}
+		return map[string]any{"hash": s2b(res.OutputHash)}, nil
 	})
 	// hash.key: the real GetTargetChangeHash on a target assembled from the request, with the input files
 	// materialised in a fresh workspace directory.
